@@ -547,6 +547,7 @@ package task
 // ---- C11: a dynamic variable is looked up, evaluated and recorded in ONE critical section, so that tasks
 // asking for the same sh: text concurrently get the same value as when they run alone
 //@ ghost var evalFailed bool scratch
+//@ ghost var dynCtx context.Context scratch
 //@ func (*Compiler).HandleDynamicVar
 //@   site execext.RunCommand#1 requires held(c.muDynamicCache)                                                 [C11,C18]
 // only the output of a SUCCESSFUL evaluation is remembered (a failure in one task's directory must not become
@@ -557,6 +558,12 @@ package task
 // the result is remembered under the command AND the directory it ran in: tasks with different dirs never get
 // each other's value
 //@   site execext.RunCommand#1 requires arg1.Command == key.sh && arg1.Dir == key.dir                          [C11]
+// the command of a dynamic variable runs under a context of its own, never under the (possibly cancelled)
+// context of the run: a deferred task call is compiled - its sh: variables evaluated - after a sibling's failure
+// has cancelled everything else, and what it evaluates to does not depend on who was cancelled when
+//@   init dynCtx := nil
+//@   site context.Background#1 ghost dynCtx := result
+//@   site execext.RunCommand#1 requires arg0 == dynCtx                                                         [C14,C11]
 //@   site mapstore#1 requires arg1.sh == key.sh && arg1.dir == key.dir                                         [C11]
 
 // ---- C11: compiling a task builds a fresh object graph ---------------------------------------------------
@@ -602,6 +609,10 @@ package task
 // Resolving the refs of a matrix must not write into the matrix of the task definition: it is shared by every
 // call of the task (and by concurrently compiling goroutines).
 //@ ghost var rowSet bool scratch
+// Expanding a matrix reads the rows (literal rows are the objects of the task definition, shared by every call and
+// by concurrently compiling goroutines) and builds new maps: it never writes into a row
+//@ func product$1
+//@   modifies cells                                                                                             [C11,C18]
 //@ func resolveMatrixRefs$1
 //@   modifies github.com/go-task/task/v3/internal/templater.*, resolved.om, om_has, om_val, om_len, om_key     [C11,C18]
 // every row, literal or ref, is put into the copy during ITS OWN iteration, under its own key: the copy keeps
